@@ -13,7 +13,7 @@ flag-less blocks (fragment blocks) may be written between files.
 -/
 import Sqfs.Proofs.BlockWriter
 import Sqfs.Proofs.FragDedup
-import Sqfs.Model.ToyCodec
+import Sqfs.Proofs.ToyCodec
 namespace Sqfs.C08
 
 section BlockWriterPart
@@ -184,18 +184,17 @@ theorem frag_lookup_unique (codec : Codec) (hrt : codec.RoundTrip) (h : Bytes â†
     exact search_perm codec st hinv hu d hd l hp
   Â· rw [herr] at hrun; cases hrun
 
-/-! ### non-vacuity: two different 3-byte fragments under a *constant* checksum, block size 8, a codec that
-really compresses (the toy RLE codec restricted to inputs it round-trips is replaced here by the identity-like
-`ident`, whose contract is immediate) -/
+/-! ### non-vacuity: different 3-byte fragments under a *constant* checksum, block size 8, and a codec that really
+compresses and provably meets the contract (the toy RLE codec of the harness) -/
 
-example : Sqfs.ToyCodec.ident.RoundTrip := by
-  intro x y hxy; simp [Sqfs.ToyCodec.ident] at hxy
+example : (Sqfs.ToyCodec.codec 8).RoundTrip := Sqfs.ToyCodec.codec_roundTrip 8
+example : Sqfs.ToyCodec.ident.RoundTrip := Sqfs.ToyCodec.ident_roundTrip
 
 def exEvs : List Ev :=
-  [ .frag [1, 2, 3] 0, .frag [1, 2, 4] 0, .frag [1, 2, 3] 0, .frag [9, 9, 9] 0,   -- 4th overflows block 0
-    .frag [1, 2, 4] 0,                                                           -- compared with the in-flight copy
-    .written 0,
-    .frag [1, 2, 3] 0,                                                           -- compared with the block on disk
+  [ .frag [1, 1, 1] 0, .frag [1, 1, 2] 0, .frag [1, 1, 1] 0, .frag [9, 9, 9] 0,   -- 4th overflows block 0
+    .frag [1, 1, 2] 0,                                                           -- compared with the in-flight copy
+    .written 0,                                                                  -- stored compressed: 1,5,2,1
+    .frag [1, 1, 1] 0,                                                           -- compared with the block re-read and expanded
     .frag [0, 0, 0] 0, .finish, .written 1 ]
 
 example : evsOk exEvs := by
@@ -204,7 +203,7 @@ example : evsOk exEvs := by
   rcases he with rfl | rfl | rfl | rfl | rfl | rfl | rfl | rfl | rfl | rfl <;> simp [Ev.ok, fragOk, hasFlag]
 
 /-- constant checksum: everything collides, yet each fragment gets its own bytes -/
-example : ((run Sqfs.ToyCodec.ident (fun _ => 0) true 8 {} exEvs).toOption.map (Â·.1)) =
+example : ((run (Sqfs.ToyCodec.codec 8) (fun _ => 0) true 8 {} exEvs).toOption.map (Â·.1)) =
     some [some (.loc 0 0), some (.loc 0 3), some (.loc 0 0), some (.loc 1 0), some (.loc 0 3), none,
           some (.loc 0 0), some .sparse, none, none] := by decide
 
